@@ -13,6 +13,14 @@
                first read), a term <<name-seed, t>>: the value is a pure
                function of the generator's identity (name, seed) and time
    saved[s]    state saved by _state_push on the slot's instance
+   ptime[s]    the time at which last[s] was produced (NoT before the first
+               production): the cache key.  A read at time ptime[s] returns the
+               cached value and produces nothing.
+   cnt[s]      number of productions so far.  A slot whose GenOf is "K" holds a
+               plain counter callable (not itself a function of time): the k-th
+               production returns k, so a read that wrongly produces again at an
+               unchanged time is visible.  _state_pop restores last and ptime,
+               not the counter's own count.
 
  Read(s) returns the term of the current time whatever was read before;
  Inspect(s) returns the cached term without producing a new one; Force(s)
@@ -24,47 +32,52 @@ CONSTANTS Slots,       \* e.g. {1, 2, 3}
           GenOf,       \* GenOf[s]: the (name, seed) identity of the slot's generator, e.g. "A" / "B"
           InstOf,      \* InstOf[s]: the instance the slot belongs to
           Times, MaxOps, MaxDepth, RecordHist
-VARIABLES time, stack, last, saved, nops, hist
-vars == <<time, stack, last, saved, nops, hist>>
+VARIABLES time, stack, last, saved, nops, hist, ptime, cnt
+vars == <<time, stack, last, saved, nops, hist, ptime, cnt>>
+NoT == 99
 
 None == <<"none", 0>>
-Term(s, t) == <<GenOf[s], t>>
+Term(s, t) == IF GenOf[s] = "K" THEN <<"K", cnt[s] + 1>> ELSE <<GenOf[s], t>>     \* what a production at time t yields
 Rec(name, args, ret) ==
   hist' = IF RecordHist THEN Append(hist, [act |-> [name |-> name] @@ args, ret |-> ret, time |-> time', depth |-> Len(stack')]) ELSE hist
 Step == nops < MaxOps /\ nops' = nops + 1
 
 Init == /\ time = 0 /\ stack = <<>> /\ last = [s \in Slots |-> None] /\ saved = [s \in Slots |-> <<>>]
-        /\ nops = 0 /\ hist = <<>>
+        /\ nops = 0 /\ hist = <<>> /\ ptime = [s \in Slots |-> NoT] /\ cnt = [s \in Slots |-> 0]
 
-SetTime(t) == /\ Step /\ t \in Times /\ time' = t /\ UNCHANGED <<stack, last, saved>>
+SetTime(t) == /\ Step /\ t \in Times /\ time' = t /\ UNCHANGED <<stack, last, saved, ptime, cnt>>
               /\ Rec("settime", [t |-> t], None)
-Advance(d) == /\ Step /\ time + d \in Times /\ time' = time + d /\ UNCHANGED <<stack, last, saved>>
+Advance(d) == /\ Step /\ time + d \in Times /\ time' = time + d /\ UNCHANGED <<stack, last, saved, ptime, cnt>>
               /\ Rec("advance", [d |-> d], None)
-Enter == /\ Step /\ Len(stack) < MaxDepth /\ stack' = Append(stack, time) /\ UNCHANGED <<time, last, saved>>
+Enter == /\ Step /\ Len(stack) < MaxDepth /\ stack' = Append(stack, time) /\ UNCHANGED <<time, last, saved, ptime, cnt>>
          /\ Rec("enter", <<>>, None)
 Exit(raising) == /\ stack # <<>> /\ time' = stack[Len(stack)] /\ stack' = SubSeq(stack, 1, Len(stack) - 1)
-                 /\ UNCHANGED <<last, saved, nops>>
+                 /\ UNCHANGED <<last, saved, nops, ptime, cnt>>
                  /\ Rec("exit", [raising |-> raising], None)
-Read(s) == /\ Step /\ last' = [last EXCEPT ![s] = Term(s, time)] /\ UNCHANGED <<time, stack, saved>>
-           /\ Rec("read", [s |-> s], Term(s, time))
-Inspect(s) == /\ Step /\ UNCHANGED <<time, stack, last, saved>>
+Produce(s) == /\ last' = [last EXCEPT ![s] = Term(s, time)] /\ ptime' = [ptime EXCEPT ![s] = time]
+              /\ cnt' = [cnt EXCEPT ![s] = @ + 1] /\ UNCHANGED <<time, stack, saved>>
+Read(s) == /\ Step
+           /\ IF ptime[s] = time THEN UNCHANGED <<time, stack, saved, last, ptime, cnt>> ELSE Produce(s)
+           /\ Rec("read", [s |-> s], last'[s])
+Inspect(s) == /\ Step /\ UNCHANGED <<time, stack, last, saved, ptime, cnt>>
               /\ Rec("inspect", [s |-> s], last[s])
-Force(s) == /\ Step /\ last' = [last EXCEPT ![s] = Term(s, time)] /\ UNCHANGED <<time, stack, saved>>
-            /\ Rec("force", [s |-> s], Term(s, time))
+Force(s) == /\ Step /\ Produce(s)
+            /\ Rec("force", [s |-> s], last'[s])
 \* C02 on generators: the slot's generator object is assigned to a constant parameter of the same
 \* instance; the assignment is rejected and must not touch the generator's cached state
-Reject(s) == /\ Step /\ UNCHANGED <<time, stack, last, saved>>
+Reject(s) == /\ Step /\ UNCHANGED <<time, stack, last, saved, ptime, cnt>>
              /\ Rec("reject", [s |-> s], None)
 \* _state_push / _state_pop act on all dynamic parameters of the instance
 Mates(s) == {x \in Slots : InstOf[x] = InstOf[s]}
 Push(s) == /\ Step /\ Len(saved[s]) < 2
-           /\ saved' = [x \in Slots |-> IF x \in Mates(s) THEN Append(saved[x], last[x]) ELSE saved[x]]
-           /\ UNCHANGED <<time, stack, last>>
+           /\ saved' = [x \in Slots |-> IF x \in Mates(s) THEN Append(saved[x], <<last[x], ptime[x]>>) ELSE saved[x]]
+           /\ UNCHANGED <<time, stack, last, ptime, cnt>>
            /\ Rec("push", [s |-> s], None)
 Pop(s) == /\ Step /\ saved[s] # <<>>
-          /\ last' = [x \in Slots |-> IF x \in Mates(s) THEN saved[x][Len(saved[x])] ELSE last[x]]
+          /\ last' = [x \in Slots |-> IF x \in Mates(s) THEN saved[x][Len(saved[x])][1] ELSE last[x]]
+          /\ ptime' = [x \in Slots |-> IF x \in Mates(s) THEN saved[x][Len(saved[x])][2] ELSE ptime[x]]
           /\ saved' = [x \in Slots |-> IF x \in Mates(s) THEN SubSeq(saved[x], 1, Len(saved[x]) - 1) ELSE saved[x]]
-          /\ UNCHANGED <<time, stack>>
+          /\ UNCHANGED <<time, stack, cnt>>
           /\ Rec("pop", [s |-> s], None)
 
 Next == \/ \E t \in Times : SetTime(t)
@@ -74,7 +87,11 @@ Next == \/ \E t \in Times : SetTime(t)
 Spec == Init /\ [][Next]_vars
 
 \* a cached value is always the term of some time at which the slot was read: values are a function of time
-CacheIsTerm == \A s \in Slots : last[s] = None \/ (last[s][1] = GenOf[s] /\ last[s][2] \in Times)
+CacheIsTerm == \A s \in Slots : last[s] = None \/ (last[s][1] = GenOf[s] /\ (GenOf[s] = "K" \/ last[s][2] \in Times))
+\* the cached value changes only by a production (a read at a new time, or a forced one) or by _state_pop;
+\* in particular reading again at an unchanged time, jumping around and inspecting leave it alone
+SameTimeSameValue ==
+  [][\A s \in Slots : (cnt'[s] = cnt[s] /\ saved'[s] = saved[s]) => (last'[s] = last[s] /\ ptime'[s] = ptime[s])]_vars
 \* leaving a context restores the time that was current when it was entered
 CtxRestores == [][Len(stack') < Len(stack) => time' = stack[Len(stack)]]_vars
 TypeOK == time \in Times /\ nops \in 0..MaxOps
